@@ -9,6 +9,7 @@ import (
 	"os"
 	"path/filepath"
 	"regexp"
+	"strings"
 
 	"github.com/reedom/convergen/pkg/builder"
 	"github.com/reedom/convergen/pkg/builder/model"
@@ -98,8 +99,33 @@ func NewParser(srcPath, dstPath string) (*Parser, error) {
 		file:    fileSrc,
 		pkg:     pkgs[0],
 		opts:    option.NewOptions(),
-		imports: util.NewImportNames(fileSrc.Imports),
+		imports: importNamesOf(fileSrc, pkgs[0]),
 	}, nil
+}
+
+// importNamesOf returns the names under which the input file refers to its imports.
+// An import without an explicit name is referred to by the name of the imported package,
+// which is not necessarily the last element of its path ("example.com/go-foo" declaring
+// "package foo", "example.com/bar/v2" declaring "package bar").
+func importNamesOf(file *ast.File, pkg *packages.Package) util.ImportNames {
+	imports := util.NewImportNames(file.Imports)
+	if pkg.Types == nil {
+		return imports
+	}
+	pkgNames := make(map[string]string)
+	for _, imported := range pkg.Types.Imports() {
+		pkgNames[imported.Path()] = imported.Name()
+	}
+	for _, spec := range file.Imports {
+		if spec.Name != nil {
+			continue
+		}
+		pkgPath := strings.ReplaceAll(spec.Path.Value, `"`, "")
+		if name, ok := pkgNames[pkgPath]; ok && name != "" {
+			imports[pkgPath] = name
+		}
+	}
+	return imports
 }
 
 // overlayForPreviousOutput hides the content of a previously generated file from the package
